@@ -123,6 +123,12 @@ def block(stmts, where) -> str:
                 raise TranslateError(f"{loc}: write_error_report not called with message/errors/stderr")
             if not (isinstance(kw["stderr"], ast.Name) and kw["stderr"].id == "stderr"):
                 raise TranslateError(f"{loc}: write_error_report does not write to stderr")
+            # the preconditions of write_error_report iterate over ``errors`` before the
+            # body does: it must be a list (display, comprehension, or a name), never a
+            # one-shot iterator such as map(...) or a generator expression
+            if not isinstance(kw["errors"], (ast.List, ast.ListComp, ast.Name)):
+                raise TranslateError(f"{loc}: errors= is not a list display, a list "
+                                     f"comprehension or a name: {ast.dump(kw['errors'])[:80]}")
             return (f"(WriteErr (ErrReport {template(kw['message'], loc)} {uses(kw['errors'])}) {k()})")
         if name == "assert_never":
             return "Abort"
